@@ -47,6 +47,9 @@ REQUIRED_THEOREMS = [
     # Props/C04Compose.lean: the stage models (C02 search, C03 k doubling, C04 Dijkstra + isomapPre, C05 post) composed
     "TapkeeVerif.IsomapCompose.isomap_end_to_end",
     "TapkeeVerif.IsomapCompose.isomap_end_to_end_brute",
+    "TapkeeVerif.IsomapCompose.isomap_queue_independent",
+    "TapkeeVerif.IsomapCompose.isomap_full_k_is_mds_end_to_end",
+    "TapkeeVerif.IsomapCompose.isomapPre_eq_isomapPreOfGeodesics",
 ]
 BUILDS = ["pq", "fib"]
 THREADS = [1, 2, 3, 8, 16]
